@@ -47,7 +47,7 @@ REQUIRED_THEOREMS = ["reader_eq_spec", "reader_segmentation_invariant", "reader_
                      "ws_close_drain_bounded", "ws_close_drain_idle", "ws_close_drain_recv", "ws_read_data_fits",
                      "ws_reader_no_oob", "ws_reader_final_state",
                      "ws_read_fits", "ws_read_keeps_ok", "ws_read_data_dest_in_bounds", "ws_read_next_frame_terminates",
-                     "ws_close_drain_fits", "ws_close_drain_in_bounds", "ws_close_terminates",
+                     "ws_close_drain_fits", "ws_close_drain_in_bounds", "ws_close_terminates", "ws_frames_states_ok",
                      "ws_close_drain_socket_empty", "ws_close_drain_close_unseen", "ws_close_drain_oversize_stuck",
                      "ws_close_drain_refused_stuck"]
 RULE = ("(byte stream, segmentation) pairs replayed into the real coap_read_session of a TCP / WebSocket session whose lowest "
@@ -532,6 +532,47 @@ def gen_ws_hostile_hs(ctx, n_streams):
     return out
 
 
+def gen_ws_self(ctx, n_streams):
+    """`wsself`: one chunk on which the READER closes the session by itself — 1002 (wrong masking for the role), 1003
+    (Ping/Pong/Text/Continuation), 1009 (declared length above 1472, 16- and 64-bit forms), a Close frame — with bytes of
+    the same chunk still pending: further frames, a Close frame, random bytes; short tails (everything inside the 14-byte
+    header read) and long ones.  coap_ws_close() then runs from inside coap_ws_read(); ties the model's `selfClose`
+    (refusalPoint + closeDrain from the refusal state: recv_close, bytes never read) to the code."""
+    rng = ctx.rng
+    out = []
+    for i in range(n_streams):
+        mode = rng.choice(["c", "s"])
+        masked = mode == "s"
+        mk = lambda: G.rbytes(rng, 4) if masked else None
+        hs = W.handshake(mode, rng, rng.choice([0, 0, 2]))
+        before = [rng.choice([ws_frame(rng, mode, ws_msg(rng, 0)), W.frame(b"", masked, mask=mk()),
+                              W.frame(bytes([0, 1]), masked, mask=mk())]) for _ in range(rng.choice([0, 0, 1, 2, 3]))]
+        c = rng.randrange(8)
+        if c == 0: bad = W.frame(ws_msg(rng, 0)[:rng.choice([0, 2, 5, 40])], not masked, mask=None if masked else G.rbytes(rng, 4))
+        elif c == 1: bad = W.frame(G.rbytes(rng, rng.choice([0, 0, 2, 9])), masked, mask=mk(),
+                                   opcode=rng.choice([W.OP_PING, W.OP_PONG, W.OP_TEXT, W.OP_CONT, 3, 11, 15]))
+        elif c == 2: bad = W.frame(b"", masked, mask=mk(), lenform=64, declared_len=rng.choice([1473, 65536, 2 ** 31, 2 ** 63, 2 ** 64 - 1]))
+        elif c == 3: bad = W.frame(b"", masked, mask=mk(), lenform=16, declared_len=rng.choice([1473, 1474, 4096, 65535]))
+        elif c == 4: bad = W.frame(rng.choice([b"", b"\x03\xe8", b"\x03\xe9bye"]), masked, mask=mk(), opcode=W.OP_CLOSE)
+        elif c == 5: bad = W.frame(G.rbytes(rng, rng.choice([1473, 1500])), masked, mask=mk())
+        elif c == 6: bad = W.frame(b"", masked, mask=mk(), opcode=rng.choice([W.OP_PING, W.OP_TEXT]), lenform=rng.choice([16, 64]))
+        else: bad = ws_special(rng, mode)
+        tail = []
+        for _ in range(rng.choice([0, 1, 1, 2, 3, 6])):
+            t = rng.randrange(6)
+            if t == 0: tail.append(W.frame(b"\x03\xe8", masked, mask=mk(), opcode=W.OP_CLOSE))
+            elif t == 1: tail.append(W.frame(bytes([0, 1]), masked, mask=mk()))
+            elif t == 2: tail.append(ws_frame(rng, mode, ws_msg(rng, 0)))
+            elif t == 3: tail.append(G.rbytes(rng, rng.choice([1, 2, 3, 7, 13, 14, 15, 30, 120])))
+            elif t == 4: tail.append(W.frame(G.rbytes(rng, rng.choice([99, 100, 101, 200])), masked, mask=mk()))
+            else: tail.append(W.frame(b"", masked, mask=mk()))
+        stream = hs + b"".join(before) + bad + b"".join(tail)
+        if rng.random() < 0.15:
+            stream = stream[:len(hs) + len(b"".join(before)) + rng.randrange(1, len(bad) + 1)]
+        out.append("wsself %s %s" % (mode, hx(stream)))
+    return out
+
+
 def gen_ws_close(ctx, n_streams):
     """`wsclose`: the application closes an established session while bytes are pending: coap_ws_close sends its Close
     frame and drains the socket (at most 5 coap_ws_read calls into a 100-byte buffer) for the peer's Close frame.
@@ -580,6 +621,7 @@ def generate(ctx, escalate=False):
     lines += gen_ws_empty_runs(ctx, 60 if ctx.thorough() else 12)
     lines += gen_ws_hostile_hs(ctx, 2500 if ctx.thorough() else 300)
     lines += gen_ws_close(ctx, 3000 if ctx.thorough() else 400)
+    lines += gen_ws_self(ctx, 6000 if ctx.thorough() else 1200)
     ctx.cov["exhaustive"] = ("every 1-, 2- and 3-cut placement of %d TCP streams and of the frame part of %d WS streams"
                              % (ctx.cov.get("exhaustive_streams", 0), ctx.cov.get("ws_exhaustive_streams", 0)))
     return ["consts"] + gen_tcp_cap_boundary(ctx) + lines
@@ -620,6 +662,8 @@ def judge(ctx, c):
 def nontrivial(c):
     if c["input"].startswith("wsclose "):
         return " drain " in (c["model"] or "")
+    if c["input"].startswith("wsself "):
+        return " self " in (c["model"] or "")
     s = c["spec"] or ""
     return not (s.startswith("n=0 end=open") and "up=1" not in s)
 
@@ -632,6 +676,10 @@ def classify(c):
         m = c["model"] or ""
         return "wsclose-%s:%s" % (w[1], "noclose" if "noclose" in m else "recv-close" if "rc=1" in m else
                                   "drained" if m.endswith("left=0") else "left")
+    if w[0] == "wsself":
+        m = c["model"] or ""
+        return "wsself-%s:%s" % (w[1], "noself" if "noself" in m else "recv-close" if "rc=1" in m else
+                                 "all-read" if m.endswith("left=0") else "left")
     s = c["spec"] or ""
     ncuts = 0 if w[3] == "-" else w[3].count(",") + 1
     if w[0] == "ws":
